@@ -349,7 +349,7 @@ Proof. unfold lframes. cbn [rev]. rewrite cl_frames_of_app. cbn. apply app_nil_r
 Lemma lframes_commit_usage u l : lframes (LCommitUsage u :: l) = lframes l.
 Proof. unfold lframes. cbn [rev]. rewrite cl_frames_of_app. cbn. apply app_nil_r. Qed.
 
-Lemma lframes_frame c f b l : lframes (LFrame c f b :: l) = lframes l ++ [(c, f)].
+Lemma lframes_frame c f b tx l : lframes (LFrame c f b tx :: l) = lframes l ++ [(c, f)].
 Proof. unfold lframes. cbn [rev]. rewrite cl_frames_of_app. reflexivity. Qed.
 
 Lemma cl_set_log_nil s : log s = [] -> set_log s [] = s.
@@ -638,14 +638,14 @@ Qed.
 Lemma on_message_eval c msg o s t :
   m_type msg = Some t ->
   on_message cfg c msg o s =
-  match dispatch cfg c t msg o (set_log s (LFrame c (FAck (m_id msg)) (is_clean s) :: log s)) with
+  match dispatch cfg c t msg o (set_log s (LFrame c (FAck (m_id msg)) (is_clean s) (now s) :: log s)) with
   | Ok x s' => Ok x s'
-  | Exn (XErr k) s' => send c (FError k) s'
+  | Exn (XErr k) s' => send c (FError k msg) s'
   | Exn e s' => Exn e s'
   end.
 Proof.
   intros Et. unfold on_message, try_catch. rewrite Et.
-  rewrite (bind_ok _ _ s tt (set_log s (LFrame c (FAck (m_id msg)) (is_clean s) :: log s)))
+  rewrite (bind_ok _ _ s tt (set_log s (LFrame c (FAck (m_id msg)) (is_clean s) (now s) :: log s)))
     by reflexivity.
   destruct (dispatch cfg c t msg o _) as [[] s'|e s']; [reflexivity|].
   destruct e; reflexivity.
@@ -790,7 +790,7 @@ Proof.
   assert (Hhas : has_conn c s = true) by (unfold has_conn; rewrite Hl; reflexivity).
   rewrite Hhas.
   rewrite (on_message_eval cfg c msg o s TClose Ht).
-  set (s0 := set_log s (LFrame c (FAck (m_id msg)) (is_clean s) :: log s)).
+  set (s0 := set_log s (LFrame c (FAck (m_id msg)) (is_clean s) (now s) :: log s)).
   assert (Hc0 : conn_of s0 c = cs).
   { unfold conn_of, s0. cbn [conns set_log]. rewrite Hl. reflexivity. }
   rewrite (dispatch_bound cfg c TClose msg o s0 a side)
@@ -808,7 +808,7 @@ Proof.
   change (subs s1) with (filter (fun p => negb (sub_is a h c p)) (subs s)) in *.
   split; [reflexivity|]. split.
   { unfold lframes in Hfr. rewrite Hfr.
-    change (log s1) with (LFrame c (FAck (m_id msg)) (is_clean s) :: log s).
+    change (log s1) with (LFrame c (FAck (m_id msg)) (is_clean s) (now s) :: log s).
     rewrite Hlog. reflexivity. }
   split; [exact Hw|]. split; [exact Hc|]. split.
   { rewrite Hsubs. destruct (close_deletes (chan_w s) a h side (m_mood msg));
@@ -840,7 +840,7 @@ Theorem close_fresh_outcome s c cs a side msg o m :
      chan_w s' = d /\ pk_clash d a m)
     \/
     (o_exc ob = None /\ (2 < List.length (sel_mbs_all d1 m))%nat /\
-     frames_of (o_log ob) = [(c, FAck (m_id msg)); (c, FError ErrCrowded)] /\
+     frames_of (o_log ob) = [(c, FAck (m_id msg)); (c, FError ErrCrowded msg)] /\
      chan_w s' = d1 /\ subs s' = subs s)
     \/
     (o_exc ob = None /\ (List.length (sel_mbs_all d1 m) <= 2)%nat /\
@@ -863,7 +863,7 @@ Proof.
   assert (Hhas : has_conn c s = true) by (unfold has_conn; rewrite Hl; reflexivity).
   rewrite Hhas.
   rewrite (on_message_eval cfg c msg o s TClose Ht).
-  set (s0 := set_log s (LFrame c (FAck (m_id msg)) (is_clean s) :: log s)).
+  set (s0 := set_log s (LFrame c (FAck (m_id msg)) (is_clean s) (now s) :: log s)).
   assert (Hc0 : conn_of s0 c = cs).
   { unfold conn_of, s0. cbn [conns set_log]. rewrite Hl. reflexivity. }
   rewrite (dispatch_bound cfg c TClose msg o s0 a side)
@@ -900,7 +900,7 @@ Proof.
       split; [apply Nat.ltb_ge; exact E23|]. split.
       { unfold lframes in Hfr. rewrite Hfr.
         change (log s3) with (LCommitChan d1 :: LCommitChan d1 ::
-                              LFrame c (FAck (m_id msg)) (is_clean s) :: log s).
+                              LFrame c (FAck (m_id msg)) (is_clean s) (now s) :: log s).
         rewrite Hlog. reflexivity. }
       split; [exact Hw|]. split; [exact Hsubs|]. split.
       { intros a' m' (cs0 & sd & H & _ & Hm). cbn [conns set_log] in H.
